@@ -31,7 +31,7 @@ def carried_gen(req):
     b = req['b']
     if req['op'] == 'reshaper':
         inv = b['inventories']
-        u = sorted(inv)[0]
+        u = req.get('target') or sorted(inv)[0]
         return u, inv[u]['resource_provider_generation']
     if isinstance(b, dict) and 'resource_provider_generation' in b:
         return req['target'], b['resource_provider_generation']
